@@ -261,6 +261,24 @@ def parseOpts : List String → Option (Option DeqOpts)
     | [] => none
   | [] => none
 
+/-- Go iterates a map in an unspecified order; DeepEqual's `for k := range l` may therefore meet a differing
+entry (answer false) or a nil pointer-to-scalar field (panic, finding deq-ptr-leaf-nil) first. `rotVal k rev`
+presents every map of a value in another order: rotated by `k`, optionally reversed (for maps of up to three
+entries that is every order). -/
+partial def rotVal (k : Nat) (rev : Bool) : Val → Val
+  | .map nl ks vs =>
+    let n := ks.length
+    let r := if n == 0 then 0 else k % n
+    let ks' := ks.drop r ++ ks.take r
+    let vs' := (vs.drop r ++ vs.take r).map (rotVal k rev)
+    if rev then .map nl ks'.reverse vs'.reverse else .map nl ks' vs'
+  | .struct fs => .struct (fs.map (rotVal k rev))
+  | .slice nl es c => .slice nl (es.map (rotVal k rev)) c
+  | .ptr w => .ptr (rotVal k rev w)
+  | v => v
+
+def mapOrders : List (Nat × Bool) := [(0, false), (1, false), (2, false), (0, true), (1, true), (2, true), (3, false), (3, true)]
+
 /-- D <tid> <fl> <fr> <vidA> <vidB> | <ident 0/1> | <opts> | <out(a,b)> <out(b,a)> -/
 def opDeq (st : St) (head identToks optToks outToks : List String) : String :=
   match head, identToks, outToks with
@@ -269,8 +287,16 @@ def opDeq (st : St) (head identToks optToks outToks : List String) : String :=
     match st.types[tid]?, st.vals[va]?, st.vals[vb]?, parseForm fl, parseForm fr, parseOpts optToks, parseDeqOut oab, parseDeqOut oba with
     | some n, some a, some b, some fl, some fr, some opts, some iab, some iba =>
       let ident := identTok == "1"
+      -- the order in which the implementation happened to range over the left operand's maps: the one
+      -- (of `mapOrders`) under which the model of the current tree gives the observed answer, if any
+      let pick (l r : Val) (f1 f2 : Form) (obs : DeqOut) : Val :=
+        match mapOrders.find? (fun (k, rev) => deqM { cfg := st.cfg, opts := opts, ident := ident } n f1 f2 (rotVal k rev l) r == obs) with
+        | some (k, rev) => rotVal k rev l
+        | none => l
+      let a1 := pick a b fl fr iab
+      let b1 := pick b a fr fl iba
       let model (c : GenCfg) : DeqOut × DeqOut :=
-        (deqM { cfg := c, opts := opts, ident := ident } n fl fr a b, deqM { cfg := c, opts := opts, ident := ident } n fr fl b a)
+        (deqM { cfg := c, opts := opts, ident := ident } n fl fr a1 b, deqM { cfg := c, opts := opts, ident := ident } n fr fl b1 a)
       let okOf (o : DeqOut × DeqOut) : Bool :=
         match rootOf fl, rootOf fr with
         | .ok, .ok =>
@@ -280,7 +306,7 @@ def opDeq (st : St) (head identToks optToks outToks : List String) : String :=
         | _, _ => o.1 == o.2 || o.1 == .panic || o.2 == .panic    -- typed-nil roots: symmetric; panics are C02's
       classify st model okOf (iab, iba) (fun o => showDeqOut o.1 ++ "," ++ showDeqOut o.2) (fun o => o.1 == .panic || o.2 == .panic)
         (if rootOf fl == .ok && rootOf fr == .ok then some (fun c =>
-          (deqM { cfg := c, opts := opts, ident := ident } n .ptr .ptr a b, deqM { cfg := c, opts := opts, ident := ident } n .ptr .ptr b a)) else none)
+          (deqM { cfg := c, opts := opts, ident := ident } n .ptr .ptr a1 b, deqM { cfg := c, opts := opts, ident := ident } n .ptr .ptr b1 a)) else none)
         (fl == .nilPtrPtr || fr == .nilPtrPtr)
     | _, _, _, _, _, _, _, _ => "skip unresolved-input"
   | _, _, _ => "skip bad-record"
